@@ -47,6 +47,15 @@ def C07Holds (t : Tables) (w : Wrapper) : Prop :=
       | .error e, .error e' => e = e'
       | _, _ => False
 
+def C07HHolds (t : Tables) (w : Wrapper) : Prop :=
+  ∀ (tol : Match.Tol) (inputs : List (List Int)) (data : List Int),
+    data.length > t.repeatLeadIn.length + t.repeatLeadOut.length →
+      match (decodeP t w (finalInst t w { last := none, tol := tol } inputs) data).result,
+            (decodeP t w { last := none, tol := tol } data).result with
+      | .ok c, .ok c' => ∀ ep ∈ t.encodeParams, c.get (Props.C01.viewKey ep.1) = c'.get (Props.C01.viewKey ep.1)
+      | .error e, .error e' => e = e'
+      | _, _ => False
+
 def C08Holds (t : Tables) (w : Wrapper) : Prop :=
   ∀ (tol : Match.Tol) (inputs : List (List Int)),
     ∀ r ∈ runInputs t w { last := none, tol := tol } inputs, ∀ e, r = .error e → e.isLibrary = true
@@ -94,6 +103,9 @@ theorem C06_holds (t : Tables) (w : Wrapper) (tol : Match.Tol) (htol : tol.ok) (
 
 theorem C07_holds (t : Tables) (w : Wrapper) (hok : c07OK t w = true) : C07Holds t w :=
   fun inst l hl hwf data hlong => C07_wrapper t w hok inst l hl hwf data hlong
+
+theorem C07H_holds (t : Tables) (w : Wrapper) (h7 : c07OK t w = true) (h8 : c08OK t w = true) : C07HHolds t w :=
+  fun tol inputs data hlong => C07_wrapper_history t w h7 h8 tol inputs data hlong
 
 theorem C08_holds (t : Tables) (w : Wrapper) (hok : c08OK t w = true) : C08Holds t w :=
   fun tol inputs => C08_wrapper t w hok tol inputs
